@@ -45,9 +45,38 @@ def closure_sessions(seed, n):
     return out
 
 
+def cached_repeat_sessions(seed, n):
+    """The same syntax tree evaluated by several eval calls under different budgets: a caching parser given the same text
+    again (first generously, then at need - 1, need, need + 1 ... of the FIRST run), and host-built ast_names lambdas whose
+    node objects are reused by every call.  Budgets are per call whatever an earlier call did with the same tree."""
+    r = random.Random(seed)
+    progs = ['[1, 2, 3] | map(v => v + 1)', 'f = v => v * 2\n[1, 2, 3, 4] | map(f) | filter(v => v > 2)', 'sorted([3, 1, 2], v => 0 - v)',
+             'g = (a, b) => a + b\nreduce([1, 2, 3], g)', 'f = v => [v, v] | map(w => w + 1)\nf(1)\nf(2)', 'hcall(v => v + 1, 2)',
+             'x = [1, 2] | map(v => t1())\nx', 'k = v => v if v else 0\n[0, 1, 2] | map(k) | map(k)']
+    out = []
+    for i in range(n):
+        host = {'t1': {'h': 'probe', 'ret': Decimal(1), 'raises': False}, 'hcall': {'h': 'call', 'mode': r.choice(['propagate', 'swallow'])}}
+        if r.random() < 0.6:
+            src = r.choice(progs)
+            calls = [{'src': src, 'n': 0, 'max': 1000, 'measure': True}]
+            for _ in range(r.choice([2, 3, 4])):
+                calls.append({'src': src, 'n': r.choice([0, 0, 1]), 'max': None, 'delta': r.choice([-3, -1, -1, 0, 0, 1, 5, 1000])})
+            out.append({'names': [{}, {}], 'host': host, 'calls': calls, 'cache': True, 'relative_budgets': True})
+        else:
+            body = r.choice(['v + 1', '[v, v] | map(w => w * 2)', 'v if v else 0', 't1()'])
+            use = r.choice(['f(1)', '[1, 2, 3] | map(f)', 'f(f(1))' if 'map' not in body else 'f(1)', 'sorted([2, 1], f)'])
+            calls = [{'src': use, 'n': 0, 'max': 1000, 'ast': [['f', 'v => ' + body]], 'measure': True}]
+            for _ in range(r.choice([2, 3])):
+                calls.append({'src': use, 'n': 0, 'max': None, 'ast': [['f', 'v => ' + body]], 'delta': r.choice([-2, -1, 0, 0, 1, 1000])})
+            out.append({'names': [{}], 'host': host, 'calls': calls, 'ast_shared': True, 'relative_budgets': True})
+    return out
+
+
 # ---- C09: probe expressions -------------------------------------------------------------
 def _probe_expr(r, d, ctr):
     def leaf():
+        if ctr[0] >= 1 and r.random() < 0.15:
+            return 't%d()' % r.randrange(1, ctr[0] + 1)      # the same probe written again (it is then called more than once)
         ctr[0] += 1
         return 't%d()' % ctr[0]
     if d <= 0 or r.random() < 0.25:
@@ -389,6 +418,37 @@ def numeric_programs(seed, n, host_types=False, depth=3):
                 lines.append(_num_expr(r, depth, nm))
         names = {k: v for k, v in names.items() if v is not None or k in ('p', 'q', 'u', 'w')}
         out.append({'names': [names], 'host': {}, 'calls': [{'src': '\n'.join(lines), 'n': 0, 'max': 400}]})
+    return out
+
+
+def shadowed_cast_programs(seed, n):
+    """C04 where the numeric-cast builtins are not what their names say: int / float / round / floor / ceil / abs shadowed by a
+    host function (identity) or by a lambda of the program, applied to host ints, strings and lists that are then multiplied,
+    raised to powers, added - a product computed natively (exact big int, repeated sequence) shows as a value mismatch."""
+    r = random.Random(seed)
+    casts = ['int', 'float', 'round', 'floor', 'ceil', 'abs']
+    pool = [7, -3, 10 ** 15 + 1, 10 ** 20 + 7, 10 ** 30 + 1, 12345678901234567890, 'ab', [1, 2], Decimal('2.5'), True, 3, 40, 2]
+    out = []
+    for _ in range(n):
+        names = {'p': r.choice(pool), 'q': r.choice(pool), 'u': r.choice([2, 3, 40, 61, Decimal(3)])}
+        host = {}
+        lines = []
+        sh = r.sample(casts, r.randrange(1, 3))
+        for c in sh:
+            k = r.random()
+            if k < 0.45:
+                host[c] = {'h': 'ident'}
+            elif k < 0.9:
+                lines.append('%s = v => v' % c)
+            # else: not shadowed after all (control)
+        def cast(x):
+            return '%s(%s)' % (r.choice(sh if r.random() < 0.8 else casts), x)
+        for _ in range(r.randrange(1, 3)):
+            a, b = r.choice(['p', 'q', 'u', '3']), r.choice(['p', 'q', 'u', '3', '61'])
+            lines.append(r.choice(['%s * %s' % (cast(a), cast(b)), '%s ** %s' % (cast(a), cast(b)), '%s * %s * %s' % (cast(a), cast(b), cast(a)),
+                                   'y = %s\ny *= %s\ny' % (cast(a), cast(b)), '(%s + %s) * %s' % (cast(a), cast(b), cast('u')),
+                                   '-%s * %s' % (cast(a), cast(b)), '%s * 3 ** %s' % (cast(a), cast('u')), '[%s][0] * %s' % (cast(a), cast(b))]))
+        out.append({'names': [names], 'host': host, 'calls': [{'src': '\n'.join(lines), 'n': 0, 'max': 300}]})
     return out
 
 
